@@ -135,8 +135,10 @@ func run(t *testing.T, sc Scenario) *core.Result {
 		srvNode := w.Net.Node("srv", "10.0.0.1")
 		h := sys.NewHandler(w)
 		srv := &gortsplib.Server{RTSPAddress: "10.0.0.1:8554", UDPRTPAddress: "10.0.0.1:8000", UDPRTCPAddress: "10.0.0.1:8001", Handler: h,
-			IdleTimeout: ms(sc.IdleMS), ReadTimeout: ms(sc.ReadMS)}
-		srv.VerifSetPeriods(10*time.Second, 10*time.Second, ms(sc.CheckMS))
+			// (odd nanoseconds: two deadlines derived from the same instant never fall on the same
+			// fake-clock tick, where the runtime would order their timers arbitrarily)
+			IdleTimeout: ms(sc.IdleMS) + 257, ReadTimeout: ms(sc.ReadMS) + 131}
+		srv.VerifSetPeriods(10*time.Second, 10*time.Second, ms(sc.CheckMS)+61)
 		h.Server = srv
 		sys.WireServer(srv, srvNode, nil)
 		if err := srv.Start(); err != nil {
